@@ -716,6 +716,101 @@ impl<A: Canon, B: Canon, C: Canon, D: Canon> Canon for Incr<A, B, C, D> {
     }
 }
 
+/// Non-parameter fields that are *single* zero-copy values (a zero-copy struct, a tuple, an
+/// over-aligned struct, a zero-copy enum): inside an ε-copy deserialization these are read through
+/// the full-copy helper for one zero-copy value, which must still refuse a misplaced buffer.
+#[derive(Epserde, Clone, Debug)]
+pub struct Holder<A> {
+    pub a: A,
+    pub p: ZeroP,
+    pub t: (u32, u32, u32),
+    pub z: Z32,
+    pub e: EnumZ,
+    pub s: String,
+    pub q: ZeroS,
+}
+impl<A: Gen> Gen for Holder<A> {
+    fn gen(r: &mut Rng, size: usize) -> Self {
+        let s = inner_size(r, size);
+        Holder { a: A::gen(r, size), p: ZeroP::gen(r, 0), t: <(u32, u32, u32)>::gen(r, 0), z: Z32::gen(r, 0), e: EnumZ::gen(r, 0), s: String::gen(r, s), q: ZeroS::gen(r, 0) }
+    }
+}
+impl<A: Canon> Canon for Holder<A> {
+    fn canon(&self, out: &mut Vec<u8>) {
+        self.a.canon(out);
+        self.p.canon(out);
+        self.t.canon(out);
+        self.z.canon(out);
+        self.e.canon(out);
+        self.s.canon(out);
+        self.q.canon(out);
+    }
+    fn parts(&self, out: &mut Vec<Part>) {
+        self.a.parts(out);
+    }
+}
+
+/// Breadth: two parameters (instantiated with single zero-copy values, arrays, tuples, boxed slices,
+/// options of zero-copy values) next to non-parameter fields of every remaining built-in kind.
+#[derive(Epserde, Clone, Debug)]
+pub struct Misc<A, B> {
+    pub a: A,
+    pub bs: Box<[u16]>,
+    pub b: B,
+    pub st: Box<str>,
+    pub c: char,
+    pub f: bool,
+    pub nz: NonZeroU16,
+    pub r: Range<u32>,
+    pub bd: Bound<u64>,
+    pub cf: ControlFlow<u8, u16>,
+    pub arr: [u64; 2],
+    pub ph: std::marker::PhantomData<u8>,
+    pub u: (),
+    pub last: u8,
+}
+impl<A: Gen, B: Gen> Gen for Misc<A, B> {
+    fn gen(r: &mut Rng, size: usize) -> Self {
+        let s = inner_size(r, size);
+        Misc {
+            a: A::gen(r, size),
+            bs: <Box<[u16]>>::gen(r, s),
+            b: B::gen(r, s),
+            st: <Box<str>>::gen(r, s),
+            c: char::gen(r, 0),
+            f: bool::gen(r, 0),
+            nz: NonZeroU16::gen(r, 0),
+            r: Range::gen(r, 0),
+            bd: Bound::gen(r, 0),
+            cf: ControlFlow::gen(r, 0),
+            arr: <[u64; 2]>::gen(r, 0),
+            ph: std::marker::PhantomData,
+            u: (),
+            last: u8::gen(r, 0),
+        }
+    }
+}
+impl<A: Canon, B: Canon> Canon for Misc<A, B> {
+    fn canon(&self, out: &mut Vec<u8>) {
+        self.a.canon(out);
+        self.bs.canon(out);
+        self.b.canon(out);
+        self.st.canon(out);
+        self.c.canon(out);
+        self.f.canon(out);
+        self.nz.canon(out);
+        self.r.canon(out);
+        self.bd.canon(out);
+        self.cf.canon(out);
+        self.arr.canon(out);
+        self.last.canon(out);
+    }
+    fn parts(&self, out: &mut Vec<Part>) {
+        self.a.parts(out);
+        self.b.parts(out);
+    }
+}
+
 // ---------------------------------------------------------------------------------------
 // loaded-structure objects (type-erased so that the schedule can move them between actors)
 
@@ -987,6 +1082,14 @@ registry! {
     IncrB: Incr<Vec<u8>, Vec<u16>, Option<Vec<u128>>, Vec<u64>>;
     IncrC: Incr<String, Vec<(u16, u16)>, Vec<ZeroP>, Vec<u128>>;
     IncrD: Incr<Vec<u8>, Vec<Z32>, Vec<Z64>, Vec<u16>>;
+    MiscA: Misc<ZeroP, [u64; 4]>;
+    MiscB: Misc<(u64, u64), Box<[u32]>>;
+    MiscC: Misc<Z32, Option<ZeroS>>;
+    MiscD: Misc<Vec<String>, EnumZ>;
+    HolderD: Holder<Z32>;
+    HolderA: Holder<Vec<u8>>;
+    HolderB: Holder<Vec<u64>>;
+    HolderC: Holder<String>;
     TupleSD: TupleS<Vec<u64>>;
     EnumDVec: EnumD<Vec<u32>> { variants = |r, s| (0..3).map(|v| EnumD::variant(v, r, s)).collect() };
     EnumDStr: EnumD<String> { variants = |r, s| (0..3).map(|v| EnumD::variant(v, r, s)).collect() };
